@@ -2,7 +2,7 @@
     Property theorems only. *)
 From Coq Require Import ZArith List Bool.
 From PV Require Import Model.Base Model.Sched Model.Seq Model.Api.
-From PV Require Import Proofs.SchedInv Proofs.SeqInv Proofs.RetargetWitness Proofs.Atomic.
+From PV Require Import Proofs.SchedInv Proofs.SeqInv Proofs.RetargetWitness Proofs.Atomic Proofs.LogReplay Proofs.AlignWitness.
 Import ListNotations.
 Open Scope Z_scope.
 
@@ -41,6 +41,35 @@ Theorem C09_measure_call_atomic :
   forall v s b er s', step v s (OMeasure b) = (s', Err er) -> s' = s.
 Proof. exact measure_call_atomic. Qed.
 Print Assumptions C09_measure_call_atomic.
+
+(** The record of successful calls: every successful building call appends
+    exactly itself (EOM calls: with the chosen off-detuning) and nothing else
+    touches the record; queries record nothing.  (Devices without Microwave
+    channels: there declare_channel never records a set_magnetic_field call of
+    its own.) *)
+Theorem C09_success_logs_call :
+  forall v o s s' x,
+    no_xy v -> is_query o = false ->
+    step v s o = (s', Ok x) -> q_log s' = logged o :: q_log s.
+Proof. exact success_logs_call. Qed.
+Print Assumptions C09_success_logs_call.
+
+(** The state is reproducible from that record: for every history in which
+    every call succeeded, replaying the record on a fresh sequence yields the
+    identical state - timelines, phase references, mode flags and the record
+    itself.  This is what build(), switch_register() to an equal register and
+    deserialisation rely on. *)
+Theorem C09_log_reproduces :
+  forall v ops,
+    no_xy v -> all_ok v seq0 ops ->
+    run v (rev (q_log (run v ops))) = run v ops.
+Proof. exact log_reproduces. Qed.
+Print Assumptions C09_log_reproduces.
+
+Theorem C09_log_reproduces_applies :
+  no_xy wenv /\ all_ok wenv seq0 wops /\ length (q_log (run wenv wops)) = 4%nat.
+Proof. exact log_reproduces_applies. Qed.
+Print Assumptions C09_log_reproduces_applies.
 
 (** "A call that raises leaves the sequence exactly as it was" is FALSE of the
     faithful model for the calls that mutate before they validate (known
